@@ -135,5 +135,8 @@ def run(ctx, rep):
     if _guards is not None:
         _guards.run(F, rep, ctx)
     _predtable.run(F, rep, ctx)
+    from props import C02 as _c02
+    _c02.return_marking(F, rep, "C03.return-marking")
     _predtable.run_conditions(F, rep)
     _identity.run(F, rep)
+    _identity.zip_lengths(F, rep, "C03.zip-length")
